@@ -626,14 +626,52 @@ def shard_mix(shard):
     return part
 
 
+# label names: the menus use A and B; a label is free text, so names that resemble other token classes (a register bank
+# letter followed by letters, digits inside, lower case, underscores, the SDK's own LOOP_EXIT3 style) must work alike
+LABEL_NAMES = [("RETRY", "CLEANUP"), ("MAIN", "QUIT"), ("Rx", "Qy"), ("M1N", "C0X"), ("loop", "exit"), ("L0", "L1"),
+               ("LOOP_EXIT3", "IF_EXIT12"), ("a", "b"), ("RR", "CQ"), ("END", "START")]
+
+
+def _rename(items, mapping):
+    def op(o):
+        if isinstance(o, tuple) and o and o[0] == "label":
+            return L(mapping.get(o[1], o[1]))
+        return o
+    out = []
+    for it in items:
+        if it[0] == "label:":
+            out.append(("label:", mapping.get(it[1], it[1])))
+        else:
+            out.append((it[0], [op(o) for o in it[1]]))
+    return out
+
+
+def shard_label_names(shard):
+    _, ni = shard
+    part = new_part()
+    n1, n2 = LABEL_NAMES[ni]
+    bodies = [[BRANCH_MENU[0], FULL_MENU[5]], [BRANCH_MENU[1], BRANCH_MENU[4]], [FULL_MENU[12], BRANCH_MENU[6]],
+              [BRANCH_MENU[3], FULL_MENU[8], BRANCH_MENU[0]]]
+    for body in bodies:
+        for items in label_variants(body):
+            items = _rename([tuple(i) for i in items], {"A": n1, "B": n2})
+            for form in ("text", "proto"):
+                part["evals"] += 1
+                part["distinct"] += 1
+                check_program(items, form, part, family="label-names")
+    count(part, "label-name-pairs")
+    return part
+
+
 def _dispatch(shard):
-    return {"grammar": shard_grammar, "macros": shard_macros, "pressure": shard_pressure, "imm": shard_immediates,
+    return {"grammar": shard_grammar, "labelnames": shard_label_names, "macros": shard_macros, "pressure": shard_pressure, "imm": shard_immediates,
             "mix": shard_mix}[shard[0]](shard)
 
 
 def run(ctx):
     shards: List[Any] = [("macros",), ("imm",)] + [("pressure", k) for k in range(11, 17)]
     shards += [("mix", i) for i in range(len(MIX_TEMPLATES))]
+    shards += [("labelnames", i) for i in range(len(LABEL_NAMES))]
     plan = [(1, False), (2, False), (3, True)] if ctx.tier == "quick" else [(1, False), (2, False), (3, False), (4, True)]
     for n, reduced in plan:
         menu = (REDUCED_MENU + REDUCED_BRANCH) if reduced else (FULL_MENU + BRANCH_MENU)
@@ -646,6 +684,7 @@ def run(ctx):
     ctx.require("pressure-programs", 40)
     ctx.require("mix-combinations", sum(2 ** len(t[2]) for t in MIX_TEMPLATES))
     ctx.require("mix-mixed", 20)
+    ctx.require("label-name-pairs", len(LABEL_NAMES))
     ctx.require("bracket-programs", 3)
     ctx.require("dyn/done", 1000)
     ctx.require("dyn/fault", 10)
